@@ -192,7 +192,7 @@ SOURCE_TIE = {
     'C08': ['best_gmm'],
     'C17': ['significant_cloud'],
     'C18': ['okta2code', 'height2code', 'perc2okta'],
-    'C20': ['okta2symb'],
+    'C20': ['okta2symb', 'perc2okta'],
 }
 _SRC_OFF = set()   # properties whose source-level theorem file is left out of this run (a function is untranslatable)
 
